@@ -111,7 +111,8 @@ class FileWrapper:
 
 SHAPES = ["str", "bytes", "empty", "list_str", "list_bytes", "gen_str", "gen_bytes", "plainiter", "file", "file_wrapper",
           "ret_response", "raise_response", "ret_error", "raise_error", "yield_response", "nested", "raise_exc",
-          "gen_fail", "custom_500", "status_attr", "no_route", "wrong_method", "unsupported", "abort", "gen_raise_response"]
+          "gen_fail", "custom_500", "status_attr", "no_route", "wrong_method", "unsupported", "abort", "gen_raise_response",
+          "shared_error", "shared_response"]
 
 
 def build(app, shape, ctx):
@@ -175,6 +176,18 @@ def build(app, shape, ctx):
     elif shape == "abort":
         def f():
             ombott.abort(s, body)
+        reg(f)
+    elif shape == "shared_error":
+        denied = HTTPError(s, "denied")        # one object, raised for every request (like the errors_map entries)
+
+        def f():
+            raise denied
+        reg(f)
+    elif shape == "shared_response":
+        page = HTTPResponse("page:" + body, s, X_Page="1")
+
+        def f():
+            return page
         reg(f)
     elif shape == "yield_response":
         def f():
@@ -283,7 +296,7 @@ def validate(calls, result_iter, chunks, iter_exc, method, log, iterable, fail, 
 
 # body text of these shapes is formatted into the ~600 character HTML error page whose utf-8 encoding costs ~800 solver
 # checks per path when any part of it is symbolic: the text is picked by a solver variable from a fixed list instead
-ERROR_PAGE = {"ret_error", "raise_error", "abort"}
+ERROR_PAGE = {"ret_error", "raise_error", "abort", "shared_error"}
 ERROR_BODIES = ["", "x", "\u00e9\u20ac", "<b>{0}</b>"]
 
 
@@ -323,27 +336,36 @@ def make(shape):
         app.add_hook("after_request", hook("a1", False))
         app.add_hook("after_request", hook("a2", False))
         iterable = build(app, shape, ctx)
-        calls = []
+        # shapes that hand the SAME response object to the framework on every request are served twice with
+        # URLs of different length (the error page shows the URL): the second response must be well-formed too
+        rounds = [env] if shape not in SHARED else [env, dict(env, QUERY_STRING="pad=0123456789")]
+        for n, env_n in enumerate(rounds):
+            del log[:]
+            calls = []
 
-        def start_response(status, headers, exc_info=None):
-            calls.append((status, headers, exc_info))
-        chunks = []
-        iter_exc = None
-        result = None
-        try:
-            result = app(env, start_response)
-            for c in result:
-                chunks.append(c)
-            close = getattr(result, "close", None)
-            if close is not None:
-                close()
-        except Exception as e:
-            iter_exc = e
-        return validate(calls, result, chunks, iter_exc, method, log, iterable, fail, shape)
+            def start_response(status, headers, exc_info=None):
+                calls.append((status, headers, exc_info))
+            chunks = []
+            iter_exc = None
+            result = None
+            try:
+                result = app(env_n, start_response)
+                for c in result:
+                    chunks.append(c)
+                close = getattr(result, "close", None)
+                if close is not None:
+                    close()
+            except Exception as e:
+                iter_exc = e
+            r = validate(calls, result, chunks, iter_exc, method, log, iterable, fail, shape)
+            if r:
+                return r if not n else "request #2 on the same application: " + r
+        return None
     return q
 
 
-USES_STATUS = {"ret_response", "raise_response", "ret_error", "raise_error", "yield_response", "nested", "status_attr", "abort",
+SHARED = {"shared_error", "shared_response"}
+USES_STATUS = {"shared_error", "shared_response", "ret_response", "raise_response", "ret_error", "raise_error", "yield_response", "nested", "status_attr", "abort",
                "gen_raise_response"}
 
 
